@@ -92,7 +92,9 @@ def reinline(txt, keep):
 
 def compile_native(srcs, out, config='haswell', defines=(), asan=False, opt='-O1', extra=()):
     flags = ['-std=c++17', opt, '-g', '-fno-omit-frame-pointer', '-DSONIC_VERIF'] + CONFIGS[config] + ['-D' + d for d in defines]
-    if asan: flags += ['-fsanitize=address,undefined', '-fno-sanitize-recover=undefined']
+    if asan == 'tsan': flags += ['-fsanitize=thread']
+    elif asan: flags += ['-fsanitize=address,undefined', '-fno-sanitize-recover=undefined']
+    flags += ['-pthread']
     inc = ['-I' + os.path.join(VERIF, 'harness'), '-I' + os.path.join(REPO, 'include')]
     run(['g++'] + flags + inc + list(srcs) + [os.path.join(VERIF, 'harness', 'verif_native.cpp'), '-rdynamic', '-ldl', '-o', out] + list(extra))
     return out
